@@ -181,3 +181,61 @@ func ruleReplayBeforeServing(c *Ctx) {
 		"go SyncWAL and the publication of c.wal are dominated by a result-checked CleanupOldWALFiles on the non-bypass path",
 		"the WAL is put in service before left-over WAL files were replayed (or the replay error is ignored)")
 }
+
+// Table T-FS (DESIGN §3): the functions that own file-system mutation in the server packages.
+var fsGates = map[string]string{
+	"(*executor.WALFileType).open":              "creates/opens a WAL file",
+	"(*executor.WALFileType).SyncWAL":           "WAL rotation truncate (guarded by C04 R4.3)",
+	"(*executor.WALFileType).Delete":            "removes a replayed WAL file (guarded by C34 R34.1)",
+	"(*executor.WALCleaner).CleanupOldWALFiles": "removes a header-only WAL file (guarded by C34 R34.2)",
+	"executor/wal.Move":                         "moves an unreplayable WAL file aside",
+	"executor.writeFixedBuffer":                 "primary write after the WAL fsync",
+	"executor.writeVariableLengthBuffer":        "primary write after the WAL fsync",
+	"executor/buffile.New":                      "batching wrapper of the fixed primary write",
+	"(*executor.CachedFP).GetFP":                "replay-only file handle cache",
+	"executor.deleteInner":                      "explicit range delete (not WAL-logged by design)",
+	"catalog.writeCategoryNameFile":             "catalog metadata file",
+	"(*catalog.Directory).AddTimeBucket":        "bucket directory creation",
+	"catalog.newTimeBucketInfoFromTemplate":     "new year file creation + header",
+	"catalog.removeDirFiles":                    "bucket destruction",
+	"(*internal/di.Container).GetAbsRootDir":    "creates the data root itself",
+}
+
+// R1.4 — nobody outside the owning gates mutates files; primary-file writers run only below
+// the WAL flush (after the fsync, R1.1) or startup replay; commands enter the queue only
+// through WriteRecords.
+func ruleNoForeignWriter(rule string) RuleFn {
+	return func(c *Ctx) {
+		sites := c.P.fsSinkSites(inServerScope)
+		c.Floor(rule, "server packages", "file-mutating call sites", len(sites), 16)
+		c.checkGateDominance(rule, sites, fsGates, "file-system mutation")
+		for k := range fsGates {
+			if c.P.Funcs[k] == nil {
+				c.Undecided(rule, k, "gate", "unresolved gate function "+k+" of table T-FS")
+			}
+		}
+		flushOrReplay := map[string]string{fnFlushCommandsToWAL: "flush after WAL fsync", fnReplayTGData: "startup replay"}
+		for _, f := range []string{fnWBTF, fnWBTFI, "executor.writeFixedBuffer", "executor.writeVariableLengthBuffer", "executor/buffile.New", "(*executor.CachedFP).GetFP"} {
+			c.checkDominated(rule, f, flushOrReplay, "primary-file writer")
+		}
+		c.checkDominated(rule, fnQueueWriteCommand, map[string]string{fnWriteRecords: "the writer"}, "write-command queue")
+		// the WAL file handle is written only by the WAL owner functions
+		walOwners := map[string]bool{fnFlushCommandsToWAL: true, fnWTI: true, fnWriteStatus: true, fnSyncWAL: true}
+		n := 0
+		for _, fn := range c.P.NonTestFuncs() {
+			if fn.Decl.Body == nil {
+				continue
+			}
+			info := fn.Pkg.TypesInfo
+			walkAll(fn.Decl.Body, func(nd ast.Node) bool {
+				if isFileMethodOn(info, nd, fldFilePtr, "Write", "WriteAt", "WriteString", "Truncate") {
+					n++
+					c.Check(walOwners[fn.Key], rule, fn.Key, "wal-handle-write", c.P.Pos(nd.Pos()),
+						"write/truncate on WALFileType.FilePtr must be in "+fmt.Sprint(sortedKeys(walOwners)))
+				}
+				return true
+			})
+		}
+		c.Floor(rule, "module", "writes through WALFileType.FilePtr", n, 7)
+	}
+}
